@@ -3,6 +3,7 @@
    for EVERY plan coalgebra (P, resume), every p and every driver script (any length).
    Only `exact lemma` proofs here; the lemmas are in Proofs/Mutators.v. *)
 From BV Require Import Base.Prelude Gen.Coalg Gen.PyGen Gen.Mutators Proofs.Mutators Proofs.PyGen.
+From BV Require Gen.Tie.   (* the correspondence functions: kept in this file's build cone *)
 
 (* finding class C20-a (Proofs/Mutators.v): the script throws a BaseException-only kind
    (GeneratorExit, PlanHalt, CancelledError, KeyboardInterrupt):
